@@ -744,6 +744,9 @@ func (x *Exec) step(s *State, fr *Frame, in ssa.Instruction) error {
 	case *ssa.Alloc:
 		elem := in.Type().(*types.Pointer).Elem()
 		ref := x.allocRef(s, "new$"+in.Name())
+		// the new object's allocation type (distinct per Go type; arrays/slices/maps get -1 elsewhere)
+		x.eng.reg.AddFun("rtype", []string{SInt}, SInt)
+		s.assume(Eq(App("rtype", SInt, ref), IntLit(int64(x.eng.tagOf(elem)))))
 		if len(x.eng.typeInvClauses(elem)) > 0 {
 			s.fresh = append(s.fresh, freshObj{typ: elem, ref: ref})
 		}
@@ -1103,6 +1106,11 @@ func (x *Exec) allocRef(s *State, prefix string) *Term {
 	na := Var(x.eng.fresh("alloc"), SInt)
 	s.assume(Eq(na, IAdd(s.alloc, IntLit(1))))
 	s.alloc = na
+	if !strings.HasPrefix(prefix, "new$") {
+		// backing arrays and maps are not struct objects
+		x.eng.reg.AddFun("rtype", []string{SInt}, SInt)
+		s.assume(Eq(App("rtype", SInt, ref), IntLit(-1)))
+	}
 	return ref
 }
 
